@@ -394,6 +394,10 @@ def check(repo, rep, tier):
         n_reads += ru.r_shape_safety(repo, rep, mod, fn, 'R14.6')
     rep.floor('shape-specific attribute reads judged', n_reads, 40)
     r_partial_lookups(repo, rep)
+    ru.r_instantiation(repo, rep, 'R14.6')      # reading a binding back is one substitution step per atom: nothing that can loop or raise (shared with C03 / C04 / C06)
+    from ..lints import r_oneshot_iterators
+    r_oneshot_iterators(repo, rep, 'R14.1', [EN, JA, UNI, CAT],
+                        'a membership test or loop over it sees its elements in the first call only, so the same pair gets another answer from the second call on (and in a fresh process)')
     nf = r_feature_methods(repo, rep)
     rep.floor('feature member reads judged', nf, 1)     # (two of the three on the reference tree sit in en._match, which nothing calls)
     for rel in (EN, JA):
